@@ -4,6 +4,13 @@ import json, sys, os
 V = '/verif'
 CLAIMED = {
 
+ 'C07': ("exhaustive enumeration of boundary-value header cases against independent reference encoders (no sampling)",
+         "Four encodings (built-in default path through the real client/server codecs, pb, code, json) x requests and responses x sequence numbers at every varint length boundary (0,1,2^7k-1,2^7k for k=1..9, 2^64-1) x upgrade field (absent, flag bytes, 2-byte) x method/error text lengths {0,1,127,128,129,16383,16384} (arbitrary bytes; valid UTF-8 with escapes under json) x body lengths {0,1,127,128,16383,16384} plus 2097151/2097152 crossed with one other field at a time x 6 scratch-buffer shapes (nil, needed-1, needed, needed+1, 64 KiB, holding a previous longer encoding): decode(encode(x)) == x, the bytes equal an independent reference encoder of the documented format (protobuf wire format tags 1-4 / 1-3 with omitted zero fields; varint-length-prefixed fields; JSON keys i,u,m,p,e,r parsed independently), reference bytes decode to the same fields, and all 32 upgrade flag combinations round-trip with the documented bit layout.",
+         "finite boundary alphabets, not all 2^64 values; package-private upgrade type reached through an overlay-only hook file (harness/inject/rpc_hooks.go.txt)", "5 C07"),
+ 'C20': ("complete enumeration of usage histories x close orders + stateless DFS over schedules (deviation-bounded); oracle = scheduler thread census, virtual timer census, fake-socket census",
+         "Histories {idle, used, call in flight, open stream with blocked reader, dead peer, waiting Client caller, pending Fallback timer} for Conn+Server, Transport+Server (limits 1,2; an idle-queue entry) and Client+Transport+Server, both close orders, every Close issued twice: at quiescence every thread the library spawned has terminated, no virtual ticker/timer is active, both ends of every connection ever dialled are closed, callers and readers have returned, the second Conn.Close reports ErrShutdown and the other Closes nil, ListenWithOptions has returned.",
+         "non-poll servers only (as the property says); bounds d<=2 quick / d<=3 thorough", "5 C20"),
+
  'C16': ("explicit enumeration of all event sequences (depth-bounded) over the real Client with a fake RoundTripper + stateless DFS over schedules for callers racing with Update",
          "Every sequence of 3 (thorough 4) events over {Update(6 lists incl. duplicates/empty strings/empty list), detector tick, health flip, Director on/off, a call of each of the 6 forms} under all three scheduling policies: every routed address is the Director's non-empty answer or a member of the most recently supplied list; plus two callers and a detector tick racing with Update (d<=2): routed addresses belong to the old or the new list, and calls started after Update returned only go to the new list.",
          "probe Pings issued by the client's own detector are not calls and are excluded; transport replaced by a fake RoundTripper", "5 C16"),
